@@ -55,7 +55,7 @@ struct AssertFail : Fail
 #define VCHECK(cond, ...)                                                                         \
     do {                                                                                          \
         if (!(cond)) {                                                                            \
-            std::ostringstream verif_os_;                                                         \
+            std::ostringstream verif_os_; verif_os_.precision(17);                                \
             verif_os_ << "check failed: " #cond " @" << __FILE__ << ":" << __LINE__ << " ";       \
             ::verif::detail::stream_all(verif_os_, ##__VA_ARGS__);                                \
             throw ::verif::Fail(verif_os_.str());                                                 \
